@@ -4,11 +4,13 @@ import (
 	"bytes"
 	"context"
 	"fmt"
+	"io"
 	"math/rand"
 	"net/http"
 	"net/http/httptest"
 	"strings"
 	"sync"
+	"testing/iotest"
 	"time"
 
 	goat "github.com/avos-io/goat"
@@ -453,12 +455,17 @@ func c19HTTPShapes(tier string, c c19Case, r *rand.Rand, res *core.Result) {
 		body    []byte
 		nilBody bool
 		want    int
+		breaks  bool // the body breaks off (read error) after these bytes
 	}
+	// a request whose body breaks off exactly where the bytes read so far happen to decode as a
+	// complete (shorter) envelope from a fresh source: it was not received, so it is not delivered
+	brokenOff, _ := proto.Marshal(&wire.Rpc{Id: 9, Header: &goatorepo.RequestHeader{Method: "/a/b", Source: "s3"}})
 	shapes := []shape{
-		{"nil-body", nil, true, 400}, {"empty-body", []byte{}, false, 400}, {"garbage", []byte{0xff, 0xff, 0xff, 0xff}, false, 400},
-		{"truncated", valid("s1")[:5], false, 400}, {"no-header", noHeader, false, 400}, {"no-source", noSource, false, 400},
-		{"mapper-error", valid("bad-src"), false, 400}, {"valid", valid("s1"), false, 200}, {"valid-second-source", valid("s2"), false, 200},
-		{"valid-again", valid("s1"), false, 200},
+		{"nil-body", nil, true, 400, false}, {"empty-body", []byte{}, false, 400, false}, {"garbage", []byte{0xff, 0xff, 0xff, 0xff}, false, 400, false},
+		{"truncated", valid("s1")[:5], false, 400, false}, {"no-header", noHeader, false, 400, false}, {"no-source", noSource, false, 400, false},
+		{"mapper-error", valid("bad-src"), false, 400, false}, {"valid", valid("s1"), false, 200, false}, {"valid-second-source", valid("s2"), false, 200, false},
+		{"valid-again", valid("s1"), false, 200, false},
+		{"body-breaks-off-on-a-field-boundary", brokenOff, false, 400, true},
 	}
 	for i := 0; i < 30; i++ {
 		b := make([]byte, r.Intn(60))
@@ -468,7 +475,7 @@ func c19HTTPShapes(tier string, c c19Case, r *rand.Rand, res *core.Result) {
 		if proto.Unmarshal(b, &ref) == nil && ref.GetHeader() != nil && ref.GetHeader().GetSource() != "" && !strings.HasPrefix(ref.GetHeader().GetSource(), "bad") {
 			want = 200
 		}
-		shapes = append(shapes, shape{"random", b, false, want})
+		shapes = append(shapes, shape{"random", b, false, want, false})
 	}
 	wantDelivered := 0
 	for _, sh := range shapes {
@@ -476,6 +483,8 @@ func c19HTTPShapes(tier string, c c19Case, r *rand.Rand, res *core.Result) {
 		if sh.nilBody {
 			req = httptest.NewRequest("POST", "/", nil)
 			req.Body = nil
+		} else if sh.breaks {
+			req = httptest.NewRequest("POST", "/", io.MultiReader(bytes.NewReader(sh.body), iotest.ErrReader(fmt.Errorf("connection reset by peer"))))
 		} else {
 			req = httptest.NewRequest("POST", "/", bytes.NewReader(sh.body))
 		}
